@@ -3760,3 +3760,84 @@ mod tests {
         assert!(manager.opening_errors.is_empty());
     }
 }
+
+#[cfg(litep2p_verif)]
+impl TransportManager {
+    /// Local peer id (verification hook).
+    pub fn verif_local_peer_id(&self) -> PeerId {
+        self.local_peer_id
+    }
+
+    /// Allocate a connection id the way transports do (verification hook).
+    pub fn verif_next_connection_id(&self) -> ConnectionId {
+        self.next_connection_id()
+    }
+
+    /// Sender of the channel connections use to report closure (verification hook).
+    pub fn verif_event_tx(&self) -> Sender<TransportManagerEvent> {
+        self.event_tx.clone()
+    }
+
+    /// Read-only projection of a peer's state (verification hook).
+    pub fn verif_peer_view(&self, peer: &PeerId) -> crate::verif::mgr::PeerView {
+        use crate::verif::mgr::PeerView;
+        use peer_state::SecondaryOrDialing;
+
+        let peers = self.peers.read();
+        let Some(context) = peers.get(peer) else {
+            return PeerView { kind: "unknown", ..Default::default() };
+        };
+        match &context.state {
+            PeerState::Connected { record, secondary } => PeerView {
+                kind: "connected",
+                primary: Some(record.connection_id.verif_as_usize()),
+                secondary: match secondary {
+                    Some(SecondaryOrDialing::Secondary(r)) => Some(r.connection_id.verif_as_usize()),
+                    _ => None,
+                },
+                dialing: match secondary {
+                    Some(SecondaryOrDialing::Dialing(r)) => Some(r.connection_id.verif_as_usize()),
+                    _ => None,
+                },
+            },
+            PeerState::Opening { connection_id, .. } => PeerView {
+                kind: "opening",
+                dialing: Some(connection_id.verif_as_usize()),
+                ..Default::default()
+            },
+            PeerState::Dialing { dial_record } => PeerView {
+                kind: "dialing",
+                dialing: Some(dial_record.connection_id.verif_as_usize()),
+                ..Default::default()
+            },
+            PeerState::Disconnected { dial_record } => PeerView {
+                kind: "disconnected",
+                dialing: dial_record.as_ref().map(|r| r.connection_id.verif_as_usize()),
+                ..Default::default()
+            },
+        }
+    }
+
+    /// Stored addresses and scores of a peer (verification hook).
+    pub fn verif_addresses(&self, peer: &PeerId) -> Vec<(Multiaddr, i32)> {
+        self.peers
+            .read()
+            .get(peer)
+            .map(|c| c.addresses.addresses.iter().map(|(a, r)| (a.clone(), r.verif_score())).collect())
+            .unwrap_or_default()
+    }
+
+    /// Pending connections (verification hook).
+    pub fn verif_pending_connections(&self) -> Vec<(usize, PeerId)> {
+        self.pending_connections.iter().map(|(c, p)| (c.verif_as_usize(), *p)).collect()
+    }
+
+    /// Connection ids counted against the limits (verification hook).
+    pub fn verif_limits(&self) -> (Vec<usize>, Vec<usize>) {
+        let (i, o) = self.connection_limits.verif_counted();
+        (
+            i.iter().map(|c| c.verif_as_usize()).collect(),
+            o.iter().map(|c| c.verif_as_usize()).collect(),
+        )
+    }
+}
